@@ -47,6 +47,7 @@ def variant(case, ids, outcome):
     for sp, _, _ in iter_specs(new):
         if sp['id'] in ids:
             sp['critical'] = False
+            sp.pop('late_critical', None)
             sp['outcome'] = outcome
     return new
 
